@@ -34,7 +34,7 @@ func crossCheck(vcs []vcRec) CrossResult {
 		name string
 		args []string
 	}
-	solvers := []sv{{"z3", []string{"-t:10000", f.Name()}}, {"cvc5", []string{"--incremental", "--tlimit-per=10000", f.Name()}}}
+	solvers := []sv{{"z3", []string{"-t:5000", f.Name()}}, {"cvc5", []string{"--incremental", "--tlimit-per=5000", f.Name()}}}
 	agreeAll := make([]bool, len(vcs))
 	for i := range agreeAll {
 		agreeAll[i] = true
@@ -46,7 +46,7 @@ func crossCheck(vcs []vcRec) CrossResult {
 		wg.Add(1)
 		go func(k int, s sv) {
 			defer wg.Done()
-			ctx, cancel := context.WithTimeout(context.Background(), 180*time.Second)
+			ctx, cancel := context.WithTimeout(context.Background(), 60*time.Second)
 			out, _ := exec.CommandContext(ctx, s.name, s.args...).CombinedOutput()
 			cancel()
 			outs[k] = string(out)
